@@ -1711,7 +1711,8 @@ class Printer:
                 extra.append("- | unused-but-checked %s?" % p.show(t[1]))
         self.rows.extend(self.pending)
         del self.pending[:]
-        self.rows.extend(sorted(set(extra)))
+        # ordered by the rows they refer to (numerically), not by their text
+        self.rows.extend(sorted(set(extra), key=lambda r: ([int(x) for x in re.findall(r"\$(\d+)", r)], r)))
 
     def emit_ret(self, ctx, v):
         if v[0] == "struct" and len(v[2]) > 2:
